@@ -76,6 +76,10 @@ class _Tmp(object):
     def __enter__(self):
         self._td = tempfile.TemporaryDirectory(prefix="verif-c16-")
         self.root = os.path.realpath(self._td.name)
+        # spellings through ~ and $VERIF_IO_DIR resolve into the per-case directory
+        self._env = {k: os.environ.get(k) for k in ("HOME", "VERIF_IO_DIR")}
+        os.environ["HOME"] = self.root
+        os.environ["VERIF_IO_DIR"] = self.root
         return self
 
     def chdir(self, sub):
@@ -87,6 +91,11 @@ class _Tmp(object):
             if self._old is not None:
                 os.chdir(self._old)
         finally:
+            for k, v in getattr(self, "_env", {}).items():
+                if v is None:
+                    os.environ.pop(k, None)
+                else:
+                    os.environ[k] = v
             self._td.cleanup()
         return False
 
@@ -835,6 +844,9 @@ def s_history():
             f = draw(st.integers(0, nfiles - 1))
             op = draw(st.sampled_from(["export", "export", "export", "export", "import", "seed"]))
             steps.append({"op": op, "file": f, "spelling": draw(st.integers(0, 6)), "as_path": draw(st.booleans()),
+                          # pickle paths may also be spelled through the home directory or an environment variable
+                          # (export_pickle / import_pickle expand both): 0 = not used
+                          "expand": draw(st.sampled_from([0, 0, 0, 1, 2, 3])),
                           "overwrite": draw(st.sampled_from([False, False, True, None])),
                           "exporter": draw(st.integers(0, 3)), "ext_kw": draw(st.sampled_from([None, None, "exact", "upper", "nodot"])),
                           "tag": draw(st.integers(0, 250))})
@@ -934,6 +946,11 @@ def c_history(case, ctx):
                 ext = "." + name.rsplit(".", 1)[-1]
                 kw["extension"] = {"exact": ext, "upper": ext.upper(), "nodot": ext[1:]}[st_["ext_kw"]]
             fn = {"landmark": mio.export_landmark_file, "image": mio.export_image, "pickle": mio.export_pickle, "video": mio.export_video}[kind]
+            ex = st_.get("expand", 0)
+            if kind == "pickle" and ex:
+                text = {1: "~/%s/%s", 2: "$VERIF_IO_DIR/%s/%s", 3: "${VERIF_IO_DIR}/%s/%s"}[ex] % (d, name)
+                fp = _as_fp(text, st_["as_path"])
+                spell = "%s/%s" % ("Path" if st_["as_path"] else "str", {1: "~", 2: "$VAR", 3: "${VAR}"}[ex])
             exists = key in model
             if kind == "video" and not exists and st_["tag"] % 2:
                 # without ffmpeg a video can never be created: put a foreign file there instead
